@@ -60,8 +60,8 @@ PROPS = {
     "C19": bat([("accounting", 200, 4000), ("hold", 150, 3000), ("stale", 150, 3000), ("ticks", 100, 2000)],
                r"^(loop:audit.*|sample:needs|sample:inflight|missing.*|act:.*|unknown:.*)$",
                "Proof: audit events come only from the audit steps; the test is made by the idle loop per AuditInterval tick (none left unanswered at a settled instant while running and not paused), skips or passes exactly under 'buffer empty and idle longer than MaxOperationTime'; pass changes nothing; with no watcher outlasting the Batcher (healthy) the reset finds every raised batch finished (timed invariant: time cannot pass a deadline, deadlines are within MaxOperationTime of the last raising flush), hence the demand figure (given no Enqueue in flight) and the slot count are zero and the audit passes; a stale non-zero figure is reset to zero with audit-fail by the first audit after the idle period. 'Only pass or skip in every healthy execution' is false of the code: C19_healthy_refuted (finding D7)."),
-    "C06": shr([("sh-config", 300, 6000), ("sh-general", 200, 4000), ("sh-reconf", 150, 3000), ("rt-shared", 16, 320)],
-               r"^(sample:.*|value:.*|unexpected:.*|missing:.*|not-enabled:.*|unknown:.*|hang)$",
+    "C06": shr([("sh-config", 300, 6000), ("sh-general", 200, 4000), ("sh-reconf", 150, 3000), ("rt-shared", 16, 320), ("lease", 1, 1)],
+               r"^(sample:.*|value:.*|unexpected:.*|missing:.*|not-enabled:.*|unknown:.*|hang|lease.*)$",
                "Proof: the capacity formula (invariant: always in V2, at settled instants in V1), the upper bound, MaxCapacity, the partition count ceil(shared/factor) with the 500 limit (V1 refuses, V2 caps with an error event), counting of a grant until issue time + lease time. Tie to the code: every recorded history of the real v1/v2 resource (fake lease manager, synctest) is replayed step by step against the extracted model; a model-free monitor recomputes Capacity()/MaxCapacity()/CreatePartitions counts from the events."),
     "C07": shr([("sh-demand", 300, 6000), ("sh-general", 200, 4000), ("sh-multi", 100, 2000)],
                r"^(not-enabled:lease|value:.*|unexpected:.*|missing:.*|sample:capacity|unknown:.*|hang)$",
